@@ -10,10 +10,10 @@ Ties  : X2 translator (a changed immediate / swapped operand regenerates a diffe
         the CPU on the same lane values.
 """
 import json, os, re, random, time
-from vlib import core, symrun, xlate_simd
+from vlib import core, symrun, xlate_simd, xlate_validate
 
 PID = "C08"
-PROP_MODULES = ["C08", "C08Ops_sse2", "C08Ops_avx2", "C08Ops_avx512"]
+PROP_MODULES = ["C08", "C08Kernels", "C08Ops_sse2", "C08Ops_avx2", "C08Ops_avx512"]
 TYPES = {"float": "float", "double": "double", "int32_t": "int32_t", "int64_t": "int64_t",
          "cfloat": "std::complex<float>", "cdouble": "std::complex<double>"}
 REAL_T = ["float", "double", "int32_t", "int64_t"]
@@ -193,6 +193,7 @@ def run(tier, seed):
     log = []
     t0 = time.time()
     reports = xlate_simd.regenerate(xlate_simd.ISAS, core.REPO, log)
+    xlate_validate.write_tables(reports, log)
     ok_all, out = core.lake_build(log=log)
     thms_by_mod = all_theorems()
     thms = [t for m in PROP_MODULES for t in thms_by_mod[m]]
@@ -226,8 +227,8 @@ def run(tier, seed):
         problems = hits + problems
         proof_info["problems"] = problems
         v.cov["discharged"] = len([t for t in thms if t in results and all(a in core.ALLOWED_AXIOMS for a in results[t])]) if not hits else 0
-        v.cov["theorems"] = [{"name": t, "axioms": results.get(t)} for t in thms_by_mod["C08"]]
-        v.cov["generated_theorems"] = {m: len(thms_by_mod[m]) for m in PROP_MODULES if m != "C08"}
+        v.cov["theorems"] = [{"name": t, "axioms": results.get(t)} for t in thms_by_mod["C08"] + thms_by_mod["C08Kernels"]]
+        v.cov["generated_theorems"] = {m: len(thms_by_mod[m]) for m in PROP_MODULES if m.startswith("C08Ops")}
         v.cov["axioms_used"] = sorted(set(a for t in thms for a in (results.get(t) or [])))
         if problems:
             v.violation("audit " + "; ".join(problems)[:200], {"kind": "audit", "detail": problems}, nofail=True)
@@ -255,8 +256,9 @@ def run(tier, seed):
             v.violation("harness-failure %s %s" % (e["group"], e["what"]), {"kind": "harness-failure", "detail": e,
                         "note": "the harness for this configuration did not compile or crashed; the property is not shown for it"}, nofail=True)
         if fmodel_ok:
-            from props import c08_intrin
+            from props import c08_intrin, c08_gen
             c08_intrin.run(v, wd, tier, seed, stats)
+            c08_gen.run(v, wd, reports, tier, seed, stats)
         if broken:
             # failing-input search: the enlarged box (more seeds, all optimisation levels) on the configurations the broken theorems are about
             found = len(v.violations) > before or bool(v.known_hits)
@@ -308,6 +310,10 @@ def replay(path):
     if obj.get("kind") == "intrinsic-model":
         from props import c08_intrin
         return c08_intrin.replay(obj)
+    if obj.get("kind") == "translator-validation":
+        out = core.fmodel([obj["input"]])
+        print("generated definition now:", out[0][:600]); print("real code then:        ", obj["real_code"][:600])
+        return 1
     if obj.get("kind") == "proof-obligation":
         log = []
         xlate_simd.regenerate(xlate_simd.ISAS, core.REPO, log)
